@@ -10,6 +10,27 @@ prog = model.Program(facts.load_raw(d))
 snap = snapshot.build(prog)
 json.dump(snap, open(snapshot.SNAP_FILE, "w"), indent=1, sort_keys=True)
 print(len(snap), "helpers snapshotted")
+# deep forms (fallback "equal modulo helper boundaries") of the snapshot helpers, the kernels and the leaf helpers
+from engine import run
+from rules import kernels
+run.prepare(prog)
+deep = {}
+live = {fid: f for fid, f in snapshot.candidates(prog)}
+for fid in snap:
+    f = live.get(fid)
+    if f is not None:
+        sg = kernels.deep_sig(prog, f)
+        if sg:
+            deep["S|" + fid] = sg
+for tab, pre in ((kernels.KERNELS, "K|"), (kernels.LEAVES, "L|")):
+    for nm, ent in tab.items():
+        fs = prog.find_fns(ent[0])
+        if len(fs) == 1:
+            sg = kernels.deep_sig(prog, fs[0])
+            if sg:
+                deep[pre + nm] = sg
+json.dump(deep, open(kernels.DEEP_FILE, "w"), indent=1, sort_keys=True)
+print(len(deep), "deep forms")
 from collections import Counter
 c = Counter(p for fid in snap for p in snapshot.props_of(fid))
 print(sorted(c.items()))
